@@ -199,7 +199,7 @@ def main(argv=None):
     t0 = time.time()
 
     mod = importlib.import_module(f"vt.props.{prop.lower()}")
-    rundir = os.path.join(VERIF, ".run", prop + ("_replay" if args.replay else ""))
+    rundir = os.path.join(VERIF, ".run", prop + ("_replay" if args.replay else "") + f"_{os.getpid()}")
     shutil.rmtree(rundir, ignore_errors=True)
     os.makedirs(rundir, exist_ok=True)
 
@@ -270,9 +270,11 @@ def main(argv=None):
             inconclusive.append({"case": "*", "reason": f"monitor {name} never evaluated"})
 
     new, seen_known = [], {}
+    # development runs (--no-evidence, e.g. against a mutated tree) keep their replays apart
+    replay_root = os.path.join(VERIF, "replays") if not args.no_evidence else os.path.join(VERIF, ".run", f"replays_{os.getpid()}")
     if not args.replay:
-        shutil.rmtree(os.path.join(VERIF, "replays", prop), ignore_errors=True)
-    os.makedirs(os.path.join(VERIF, "replays", prop), exist_ok=True)
+        shutil.rmtree(os.path.join(replay_root, prop), ignore_errors=True)
+    os.makedirs(os.path.join(replay_root, prop), exist_ok=True)
     for spec, v in violations:
         mech = v.get("mechanism")
         if mech in known:
@@ -290,7 +292,7 @@ def main(argv=None):
         if key in reported:
             continue
         reported.add(key)
-        rpath = os.path.join(VERIF, "replays", prop, f"{spec.get('id')}.json")
+        rpath = os.path.join(replay_root, prop, f"{spec.get('id')}.json")
         with open(rpath, "w") as f:
             f.write(dumps({"property": prop, "spec": spec, "witness": v}, indent=1))
         if len(reported) <= 40:
